@@ -1269,6 +1269,19 @@ def check_C10(run):
             exp_out, exp_err = I.expected_streams(st.op, t, sp["execno"], with_bg=bg_here)
             rel = os.path.relpath(sp["env"]["COND_OUT"], os.path.join(root, "cond-out"))
             mode = "teed" if sp["io"]["out"] == "pipe" else ("logged" if sp["io"]["out"] == "file" else sp["io"]["out"])
+            # the mode the property demands comes from the model, not from what the code chose: a task runs in
+            # a parallel slot exactly when it is parallelizable and JOBS > 1 (C04); everything else is
+            # "sequential mode" and must be forwarded (seeded change C10g-2: record type chosen from the
+            # parallelizable flag alone, so a parallelizable experiment under --jobs 1 was only logged)
+            jobs_m = M.jobs_of(st.op.get("flags", {}), run.scn.get("knobs", {}))
+            par_m = bool(tasks[t].get("par")) and tasks[t]["kind"] in ("exp", "cmd")
+            if isinstance(jobs_m, int) and jobs_m >= 1:
+                want = "logged" if (par_m and jobs_m > 1) else "teed"
+                if want == "teed" and mode == "logged":   # (forwarding a slot task as well is not forbidden)
+                    V.append(Violation("C10", "sequential-task-not-forwarded",
+                                       {"task": t, "jobs": jobs_m, "parallelizable": par_m, "stdout_is": sp["io"]["out"]}, i))
+                elif want == "teed" and par_m:
+                    bump("parallelizable_task_without_slot_forwarded")
             for fname, data in (("stdout.log", exp_out), ("stderr.log", exp_err)):
                 got = tree.get(rel + "/" + fname)
                 if got is None:
